@@ -39,7 +39,7 @@ TIERS = {
 }
 RULE = ("History on ONE operator: (jac|hess) x function kind [plain function with explicit tensors, method of 9 "
         "EditableModule kinds / 5 nn.Module kinds, pre-built PureFunction, sibling] x argument shapes [(n,), (n,1), (1,n), "
-        "0-d; non-tensor arguments interleaved; python-float / no-grad arguments] x index selection [int, None, sequence; "
+        "0-d; non-tensor arguments interleaved or an all-tensor list; python-float / no-grad arguments; the caller re-using its argument list for the next point after making the operator] x index selection [int, None, sequence; "
         "invalid index as a request that must be rejected] x <=9 (quick) operations: product in {mv,rmv,mm,rmm,fullmatrix,"
         "H.mv,H.rmv,H.mm,H.fullmatrix} with operand batch rank 0-2 under no_grad/enable_grad; first- and second-order "
         "gradient of the last product w.r.t. everything currently installed; substitute fresh tensors through "
@@ -100,6 +100,11 @@ def draw_scenario(cs, cfg):
     # ... and in half of those the substitution ends right after the construction: the operator outlives the block
     # it was made in (what every rootfinder backward does) and goes on describing the function at ITS tensors
     sc["outer_exit"] = bool(sc["construct_under_subst"]) and cs.bool("outer_exit_after_construct", 1, 2)
+    # plain functions: the argument list holds tensors only (shape and size are closed over) - with every one of them
+    # differentiable the library has no reason to build a list of its own, so it must take care not to keep the caller's
+    sc["tensor_only_params"] = sc["fkind"] == "plain" and cs.bool("tensor_only_params", 1, 2)
+    # the caller goes on using ITS list: right after making the operator it puts the next point into the same list
+    sc["caller_reuses_list"] = cs.bool("caller_reuses_list", 1, 3)
     sc["rgW"] = not cs.bool("W_nograd", 1, 6)
     sc["rgb"] = not cs.bool("b_nograd", 1, 6)
     # which argument the derivative is taken with respect to
@@ -194,6 +199,13 @@ def build_env(sc):
         env.fcn = fplain
         env.params = [x, oshape, c, k, s, W, b]
         env.names = ["x", None, "c", None, "s", "W", "b"]
+        if sc.get("tensor_only_params"):
+            def fplain_t(x, c, s, W, b):
+                SIM.enter("fplain", None)
+                return ref(W, b, x, oshape, c, k, s)
+            env.fcn = fplain_t
+            env.params = [x, c, s, W, b]
+            env.names = ["x", "c", "s", "W", "b"]
     else:
         a = AC.build_actor(AC.ALL_KINDS[sc["kind"]], vals, sc["rgW"], sc["rgb"])
         env.actor = a
@@ -388,6 +400,15 @@ def execute(sc, plan, reference=None):
             V(inv, "construct", "after the substitution around the construction ended: " + detail)
         init_snap = Snapshot(env.actor, "obj")
         SIM.count("reach.operator_outlives_the_substitution_it_was_made_in")
+    params_copy = list(env.params)
+    if sc.get("caller_reuses_list"):
+        # the list is the caller's: it now holds the next point (a new tensor in the differentiated slot); the operator
+        # made before goes on describing the function at the point it was made for
+        old_pt = env.params[idx]
+        if isinstance(old_pt, torch.Tensor):
+            env.params[idx] = (old_pt.detach() * 0.5 + 0.1).requires_grad_(old_pt.requires_grad)
+            params_copy = list(env.params)
+            SIM.count("reach.caller_reuses_its_parameter_list")
     if tuple(op.shape) != (env.nout, env.nin):
         V("operator_shape", "construct", "operator shape %s, expected (%d, %d)" % (tuple(op.shape), env.nout, env.nin))
     SIM.set_plan(plan)
@@ -406,6 +427,10 @@ def execute(sc, plan, reference=None):
     def check_state(opname):
         # a substitution into the operator reaches the user's object only while a product is being evaluated:
         # between operations the object always holds its own tensors
+        if len(env.params) != len(params_copy) or any(a_ is not b_ for a_, b_ in zip(env.params, params_copy)):
+            V("caller_list_modified", opname, "the list of arguments the caller handed to %s() was modified "
+              "(open substitutions: %d)" % (sc["which"], len(ctxs)))
+            env.params[:] = params_copy
         if env.actor is None:
             return
         if idents(env.actor) != init_snap.ident_tuple():
